@@ -5,7 +5,10 @@
 //!         P <env> <args>     real predicates instead of the capture command: for 2 arguments equals, contains,
 //!                            starts_with and a user function; for 1 argument is_empty and a user function; output
 //!                            one word per predicate, six letters each (direct if elseif while not alias):
-//!                            T / F = truthiness of the output resp. branch taken, E = an error was recorded
+//!                            T / F = truthiness of the output resp. branch taken, E = an error was recorded,
+//!                            - = not run (alias of a user function: see PA)
+//!         PA <env> <arg>     is_empty-like user function called directly and through an alias (two letters);
+//!                            on the unchanged tree the second call never returns (finding F7-A)
 //! output of C: seven space-separated results, in the order
 //!           direct if elseif while not alias alias-with-first-argument-stored
 //!         each  A<list> (capture ran exactly once with these arguments) | N (it did not run) |
@@ -155,10 +158,23 @@ fn main() {
                 w.push(run_pred(&format!("r = set F\nif false\nelseif {}{}\nr = set T\nend\n", p, a), f[1], &args, 1));
                 w.push(run_pred(&format!("r = set F\nwhile {}{}\nr = set T\nexit\nend\n", p, a), f[1], &args, 1));
                 w.push(run_pred(&format!("n = not {}{}\n", p, a), f[1], &args, 2));
-                w.push(run_pred(&format!("alias al9 {}\nr = al9{}\n", p, a), f[1], &args, 0));
+                if p.starts_with("upred") {
+                    // an alias of a user function does not return (finding F7-A): exercised by PA only
+                    w.push('-');
+                } else {
+                    w.push(run_pred(&format!("alias al9 {}\nr = al9{}\n", p, a), f[1], &args, 0));
+                }
                 out.push(w);
             }
             out.join(" ")
+        }
+        "PA" => {
+            // witness of F7-A: a user function reached through an alias (may never return)
+            let args = dec_list(f[2]);
+            let mut w = String::new();
+            w.push(run_pred("r = upred1 ${v0}\n", f[1], &args, 0));
+            w.push(run_pred("alias al9 upred1\nr = al9 ${v0}\n", f[1], &args, 0));
+            w
         }
         "S" => {
             // debugging aid: S <env> <args> <script text> -> result letter of the script (how = 0)
